@@ -104,6 +104,17 @@ def main():
     agg["workers"] = workers
     code, info = core.classify_and_report(prop, a.tier, seed, agg, quiet=a.quiet)
     eng = core.get_engine(prop)
+    # a batch in which nothing was judged proves nothing: never let it exit 0
+    if code == core.EXIT_OK and agg["n"] >= 1000 and hasattr(eng, "ESSENTIAL"):
+        missing = [k for k in eng.ESSENTIAL if agg["stats"].get(k, 0) == 0]
+        if missing:
+            print("HARNESS-ERROR:", json.dumps({"error": f"{agg['n']} runs but nothing was judged: counters {missing} are zero"}))
+            agg["harness"].append({"error": f"essential counters zero: {missing}"})
+            code = core.EXIT_HARNESS
+    drift = core.api_drift()
+    if drift:
+        print(f"NOTE: the library's public API differs from the snapshot the operation alphabets were written against "
+              f"({len(drift)} differences, e.g. {drift[0]}); new entry points are not explored until sim/ is extended")
     path = core.write_evidence(prop, a.tier, seed, agg, info, eng, code)
     print(f"{prop} tier={a.tier} seed={seed} runs={agg['n']} events={agg['events']} wall={agg['wall_s']:.1f}s "
           f"distinct_nontrivial={len(agg['abstracts'])} foreign={sum(agg['foreign'].values())} "
